@@ -16,6 +16,7 @@ RULE = ("generated *_test.ucg files with 0..8 assertions, each true / false / ma
         "fails; a file's verdict and log are the same alone and at every position of every permutation. distinct = "
         "distinct (file set, order); non-trivial = >= 2 files with at least one failing file before a passing one, or "
         "a malformed / computed assertion.")
+RULE += (" " + 'Also: a shared non-test helper file with assertions of its own imported by some of the test files (its assertions belong to every importer); run-time build errors between assertions (the assertions evaluated before the error must be logged); the same file given two and three times in one invocation.')
 
 AKINDS = ["true", "true", "true", "false", "non-tuple", "missing-ok", "non-bool-ok", "non-string-desc", "computed-true", "computed-false",
           "expr-true", "expr-false"]
